@@ -206,6 +206,17 @@ def equal_want(side_pred):
     return want
 
 
+def def_event_pos(fn, name):
+    """(block, index) of the declaration / assignment event that defines a single-definition local"""
+    for b, i, e, n in fn.events():
+        if n["k"] == "decl" and any(v["name"] == name and "init" in v for v in n["vars"]):
+            return b, i
+        if n["k"] == "bin" and n["op"] == "=" and fn.kids(e) and fn.nodes[fn.kids(e)[0]]["k"] == "ref" and fn.nodes[fn.kids(e)[0]].get("name") == name:
+            return b, i
+    return None
+
+
+
 def const_value(fn, nid):
     """integer value of a constant expression (through casts), 0 for null pointer constants, else None"""
     for _ in range(6):
